@@ -14,6 +14,7 @@ package main
 import (
 	"fmt"
 	"go/token"
+	"go/types"
 	"sort"
 	"strings"
 
@@ -935,4 +936,278 @@ func ruleRouteQueue(p *Prog, r *Report) {
 	} else {
 		r.OK("ROUTE", key, p.posStr(f.Pos()), fmt.Sprintf("%d declining returns, each under conditions on offsets, fill level or log level only", n))
 	}
+}
+
+// ---- ZONE: getLocation yields a zone for every offset ---------------------------------------------------
+//
+// The time accessors take a nil *time.Location for "no offset tag in the file" and report the timestamp in UTC.
+// exif2.getLocation must therefore never return nil: every value it returns is the result of time.FixedZone (or
+// of a library function all of whose returns are), a value found in a map of which every insert is such a
+// result, or an element of a table that a counted loop provably fills from its first to its last index with
+// such results.
+func ruleZone(p *Prog, r *Report) {
+	f := p.Func("exif2", "", "getLocation")
+	key := "exif2.getLocation | never returns nil"
+	if f == nil {
+		r.Undecided("ZONE", key, "-", "unresolved anchor")
+		return
+	}
+	at := p.posStr(f.Pos())
+	bad := ""
+	nRet := 0
+	eachInstr(f, func(_ *ssa.BasicBlock, _ int, in ssa.Instruction) {
+		rt, ok := in.(*ssa.Return)
+		if !ok || len(rt.Results) != 1 {
+			return
+		}
+		nRet++
+		if w := nonNilZone(p, rt.Results[0], 0, map[ssa.Value]bool{}); w != "" {
+			bad = fmt.Sprintf("the value returned at %s may be nil (%s): the accessors take a nil zone for an absent offset tag and report the time in UTC", p.posStr(instrPos(rt)), w)
+		}
+	})
+	if bad != "" {
+		r.Bad("ZONE", key, at, bad)
+	} else {
+		r.OK("ZONE", key, at, fmt.Sprintf("%d returns: a time.FixedZone result, a cached one, or an element of a fully filled table", nRet))
+	}
+}
+
+// nonNilZone: "" when v is provably a non-nil pointer by the three accepted origins.
+func nonNilZone(p *Prog, v ssa.Value, d int, seen map[ssa.Value]bool) string {
+	if d > 8 {
+		return "origin too deep"
+	}
+	if seen[v] {
+		return ""
+	}
+	seen[v] = true
+	switch x := v.(type) {
+	case *ssa.Call:
+		sc := x.Call.StaticCallee()
+		if sc == nil {
+			return "result of a dynamic call"
+		}
+		if sc.String() == "time.FixedZone" {
+			return ""
+		}
+		if !isRepoFn(sc) || len(sc.Blocks) == 0 {
+			return "result of " + sc.String()
+		}
+		why := ""
+		eachInstr(sc, func(_ *ssa.BasicBlock, _ int, in ssa.Instruction) {
+			if rt, ok := in.(*ssa.Return); ok && len(rt.Results) == 1 && why == "" {
+				why = nonNilZone(p, rt.Results[0], d+1, seen)
+			}
+		})
+		return why
+	case *ssa.Phi:
+		for _, e := range x.Edges {
+			if w := nonNilZone(p, e, d+1, seen); w != "" {
+				return w
+			}
+		}
+		return ""
+	case *ssa.Extract:
+		// z, ok := m[k] — accepted when every insert into m is non-nil (the ok test only decides presence)
+		if lk, ok := x.Tuple.(*ssa.Lookup); ok && x.Index == 0 {
+			return mapAllNonNil(p, lk.X, d, seen)
+		}
+	case *ssa.Lookup:
+		return mapAllNonNil(p, x.X, d, seen) + ifNonEmpty(" (and a missing key yields nil)", true)
+	case *ssa.UnOp:
+		if x.Op == token.MUL {
+			if ia, ok := x.X.(*ssa.IndexAddr); ok {
+				return tableAllNonNil(p, ia.X, d, seen)
+			}
+		}
+	case *ssa.Index:
+		return tableAllNonNil(p, x.X, d, seen)
+	case *ssa.Const:
+		if x.Value == nil {
+			return "the nil constant"
+		}
+	}
+	return "value of unrecognised origin (" + shortVal(v) + ")"
+}
+
+func ifNonEmpty(s string, c bool) string {
+	if c {
+		return s
+	}
+	return ""
+}
+
+func mapAllNonNil(p *Prog, m ssa.Value, d int, seen map[ssa.Value]bool) string {
+	g := loadOfGlobal(m)
+	if g == nil {
+		return "lookup in a map that is not a package-level variable"
+	}
+	why := ""
+	n := 0
+	for fn := range p.AllFns() {
+		if !isRepoFn(fn) {
+			continue
+		}
+		eachInstr(fn, func(_ *ssa.BasicBlock, _ int, in ssa.Instruction) {
+			mu, ok := in.(*ssa.MapUpdate)
+			if !ok || loadOfGlobal(mu.Map) != g {
+				return
+			}
+			n++
+			if w := nonNilZone(p, mu.Value, d+1, seen); w != "" && why == "" {
+				why = "an insert into " + globalName(g) + " stores " + w
+			}
+		})
+	}
+	return why
+}
+
+// tableAllNonNil: base is (the address of) a package-level array initialised by a call to a function that fills a
+// local array completely with non-nil values in one counted loop, or such a local array itself.
+func tableAllNonNil(p *Prog, base ssa.Value, d int, seen map[ssa.Value]bool) string {
+	g := globalOf(base)
+	if g == nil {
+		if u, ok := base.(*ssa.UnOp); ok && u.Op == token.MUL {
+			g = globalOf(u.X)
+		}
+	}
+	if g == nil {
+		return "element of a table that is not a package-level variable"
+	}
+	// the initialiser: Store g <- call in the package init
+	var initVal ssa.Value
+	nSt := 0
+	for fn := range p.AllFns() {
+		if !isRepoFn(fn) {
+			continue
+		}
+		eachInstr(fn, func(_ *ssa.BasicBlock, _ int, in ssa.Instruction) {
+			if st, ok := in.(*ssa.Store); ok && globalOf(st.Addr) == g {
+				nSt++
+				if st.Addr == ssa.Value(g) && isInitFn(fn) {
+					initVal = st.Val
+				} else {
+					initVal = nil
+					nSt += 100
+				}
+			}
+		})
+	}
+	if nSt != 1 || initVal == nil {
+		return "element of " + globalName(g) + ", which is not initialised by exactly one whole-table store in the package initialiser"
+	}
+	c, ok := initVal.(*ssa.Call)
+	if !ok || c.Call.StaticCallee() == nil || len(c.Call.StaticCallee().Blocks) == 0 {
+		return "element of " + globalName(g) + ", whose initialiser is not a call of a library function"
+	}
+	sc := c.Call.StaticCallee()
+	why := ""
+	eachInstr(sc, func(_ *ssa.BasicBlock, _ int, in ssa.Instruction) {
+		rt, ok := in.(*ssa.Return)
+		if !ok || len(rt.Results) != 1 || why != "" {
+			return
+		}
+		ld, ok := rt.Results[0].(*ssa.UnOp)
+		if !ok || ld.Op != token.MUL {
+			why = "element of " + globalName(g) + ": the table returned by " + fnName(sc) + " is not a local array"
+			return
+		}
+		al, ok := ld.X.(*ssa.Alloc)
+		if !ok {
+			why = "element of " + globalName(g) + ": the table returned by " + fnName(sc) + " is not a local array"
+			return
+		}
+		if w := arrayFilledByLoop(p, sc, al, d, seen); w != "" {
+			why = "element of " + globalName(g) + ": " + w
+		}
+	})
+	return why
+}
+
+// arrayFilledByLoop: the local array al of fn receives, in a loop `for i := a; i </<= B; i++`, a store to al[i+c]
+// on every iteration with a non-nil value, and {a+c .. last+c} covers 0 .. len-1.
+func arrayFilledByLoop(p *Prog, fn *ssa.Function, al *ssa.Alloc, d int, seen map[ssa.Value]bool) string {
+	pt, _ := al.Type().Underlying().(*types.Pointer)
+	if pt == nil {
+		return "not an array"
+	}
+	arr, _ := pt.Elem().Underlying().(*types.Array)
+	if arr == nil {
+		return "not an array"
+	}
+	N := arr.Len()
+	loops := findLoops(fn)
+	for _, rf := range refs(al) {
+		ia, ok := rf.(*ssa.IndexAddr)
+		if !ok {
+			continue
+		}
+		for _, rf2 := range refs(ia) {
+			st, ok := rf2.(*ssa.Store)
+			if !ok || st.Addr != ssa.Value(ia) {
+				continue
+			}
+			if w := nonNilZone(p, st.Val, d+1, seen); w != "" {
+				return "the table is filled with " + w
+			}
+			a := affineOf(ia.Index, 0)
+			var phi *ssa.Phi
+			for k, co := range a.Terms {
+				if ph, ok := k.(*ssa.Phi); ok && co == 1 && len(a.Terms) == 1 {
+					phi = ph
+				}
+			}
+			if phi == nil {
+				continue
+			}
+			ind, ok := inductionOf(phi)
+			if !ok || ind.Step != 1 || ind.Bound == nil {
+				continue
+			}
+			init, ok1 := ind.Init.isConst()
+			bound, ok2 := ind.Bound.isConst()
+			if !ok1 || !ok2 {
+				continue
+			}
+			// the comparison is on CmpOn = phi + k
+			k := int64(0)
+			if ind.CmpOn != nil {
+				k = ind.CmpOn.C
+			}
+			var last int64
+			switch ind.Op {
+			case token.LSS:
+				last = bound - 1 - k
+			case token.LEQ:
+				last = bound - k
+			default:
+				continue
+			}
+			// the store happens on every iteration: its block dominates every latch of the loop of phi
+			var lp *Loop
+			for _, l := range loops {
+				if l.Head == phi.Block() {
+					lp = l
+				}
+			}
+			if lp == nil {
+				continue
+			}
+			every := true
+			for _, lt := range lp.Latch {
+				if !st.Block().Dominates(lt) {
+					every = false
+				}
+			}
+			if !every {
+				continue
+			}
+			lo, hi := init+a.C, last+a.C
+			if lo <= 0 && hi >= N-1 {
+				return ""
+			}
+			return fmt.Sprintf("the loop in %s fills elements %d..%d of a table of %d: the other elements stay nil", fnName(fn), lo, hi, N)
+		}
+	}
+	return "no counted loop that fills the table was recognised in " + fnName(fn)
 }
